@@ -192,7 +192,8 @@ FAMILY: Dict[str, Dict[str, Any]] = {
     "C10": dict(
         shapes=lambda tier: shp.core_shapes() + shp.load_shapes()[:2] + shp.tworoot_shapes(), plans=lambda tier: P_FAIL,
         variants=small_variants, oracle=oracles.c10, protocol=True,
-        fail_classes=lambda tier: ["Exception", "KeyboardInterrupt"] + (["SystemExit", "ValueError"] if tier == "thorough" else []),
+        # KeyError: the class dds raises internally itself when a table misses an entry
+        fail_classes=lambda tier: ["Exception", "KeyboardInterrupt", "KeyError"] + (["SystemExit", "ValueError"] if tier == "thorough" else []),
         nontrivial=lambda hist: any(r["op"] == "eval" and isinstance(r["err"], list) and r["err"][:1] == ["raise"] for r in hist),
         rule="history with one function switched to fail (every function of the shape x exception class); non-trivial "
              "when the failing body is actually reached (the specification predicts the raise)"),
